@@ -7,14 +7,18 @@
 From Model Require Import Base.
 Local Open Scope nat_scope.
 
-Inductive tmpk := TNull | TBase | TDerived (nk : nat).   (* nk: stage vectors held (0 for backward Euler) *)
+(* TDerived owner nk: the scratch of the solver `owner` (0: the solver used for solving; 1: another solver of the same
+   C++ type with another number of grid cells), holding nk stage vectors (0 for backward Euler) *)
+Inductive tmpk := TNull | TBase | TDerived (owner nk : nat).
 
 (* one State variable of the test program: live = holds a State that was not moved from *)
-Record sobj := mkSObj { so_live : bool; so_tmp : tmpk; so_data : nat }.
+(* so_shape: which solver's dimensions the State's matrices have (the solver only solves States of its own shape) *)
+Record sobj := mkSObj { so_live : bool; so_tmp : tmpk; so_data : nat; so_shape : nat }.
 
 Inductive vop :=
   | OGet (i : nat) | OCopyC (i j : nat) | OCopyA (i j : nat) | OMoveC (i j : nat) | OMoveA (i j : nat)
   | OSet (i v : nat) | OSolve (i : nat) | OSMove
+  | OGet2 (i : nat)          (* state[i] = other_solver.GetState() *)
   | OPSolve (i m : nat).     (* Solve(time_step, state, parameters) with parameters of m stages: also becomes the solver's set *)
 
 Inductive vtok := TkGet | TkCC | TkCA | TkMC | TkMA | TkSet | TkSolve (data : nat) | TkSMove | TkSkip | TkUB.
@@ -26,16 +30,16 @@ Section VS.
   (* does Solve provide the stage vectors a State created for fewer stages lacks? *)
   Variable grows : bool.
 
-  Definition slot (st : list sobj) (i : nat) : sobj := nth i st (mkSObj false TNull 0).
+  Definition slot (st : list sobj) (i : nat) : sobj := nth i st (mkSObj false TNull 0 0).
 
   (* a solve on State i with a parameter set of m stages: the new State (scratch possibly enlarged) or UB *)
   Definition solve_on (st : list sobj) (i m : nat) : option (list sobj) :=
     match so_tmp (slot st i) with
-    | TDerived nk =>
+    | TDerived 0 nk =>
       if m <=? nk then Some st
-      else if grows then Some (upd i (mkSObj true (TDerived m) (so_data (slot st i))) st)
+      else if grows then Some (upd i (mkSObj true (TDerived 0 m) (so_data (slot st i)) 0) st)
       else None                                            (* K[nk] and beyond: heap overflow *)
-    | _ => None                                            (* static_cast of a base object / null pointer *)
+    | _ => None                      (* static_cast of a base object / null pointer / scratch of other dimensions *)
     end.
 
   (* the store, and the stage count of the solver's current parameter set (GetState sizes the scratch with it) *)
@@ -47,28 +51,30 @@ Section VS.
     let keep (r : list sobj * vtok) : vstate * vtok := ((fst r, stages), snd r) in
     match o with
     | OPSolve i m =>
-      if so_live (slot st i) then
+      if so_live (slot st i) && (so_shape (slot st i) =? 0) then
         match solve_on st i m with
         | Some st' => ((st', m), TkSolve (so_data (slot st i)))
         | None => ((st, m), TkUB)
         end
       else ((st, stages), TkSkip)
     | _ => keep (match o with
-    | OGet i => (upd i (mkSObj true (TDerived stages) i) st, TkGet)
+    | OGet i => (upd i (mkSObj true (TDerived 0 stages) i 0) st, TkGet)
+    | OGet2 i => (upd i (mkSObj true (TDerived 1 stages) i 1) st, TkGet)
     | OCopyC i j | OCopyA i j =>
       if (i =? j) || negb (so_live (slot st j)) then (st, TkSkip)
       else match copy_tmp (so_tmp (slot st j)) with
            | None => (st, TkUB)
-           | Some t => (upd i (mkSObj true t (so_data (slot st j))) st,
+           | Some t => (upd i (mkSObj true t (so_data (slot st j)) (so_shape (slot st j))) st,
                         match o with OCopyC _ _ => TkCC | _ => TkCA end)
            end
     | OMoveC i j | OMoveA i j =>
       if (i =? j) || negb (so_live (slot st j)) then (st, TkSkip)
-      else (upd j (mkSObj false TNull 0) (upd i (mkSObj true (so_tmp (slot st j)) (so_data (slot st j))) st),
+      else (upd j (mkSObj false TNull 0 0) (upd i (mkSObj true (so_tmp (slot st j)) (so_data (slot st j)) (so_shape (slot st j))) st),
             match o with OMoveC _ _ => TkMC | _ => TkMA end)
-    | OSet i v => if so_live (slot st i) then (upd i (mkSObj true (so_tmp (slot st i)) v) st, TkSet) else (st, TkSkip)
+    | OSet i v => if so_live (slot st i) then (upd i (mkSObj true (so_tmp (slot st i)) v (so_shape (slot st i))) st, TkSet)
+                  else (st, TkSkip)
     | OSolve i =>
-      if so_live (slot st i) then
+      if so_live (slot st i) && (so_shape (slot st i) =? 0) then
         match solve_on st i stages with
         | Some st' => (st', TkSolve (so_data (slot st i)))    (* the result is a function of the State's own data *)
         | None => (st, TkUB)
@@ -93,4 +99,4 @@ Definition copy_fixed (t : tmpk) : option tmpk := Some t.
 Definition copy_sliced (t : tmpk) : option tmpk := match t with TNull => None | _ => Some TBase end.
 
 (* n empty State variables and a solver whose parameter set has `stages` stages *)
-Definition store0 (n stages : nat) : list sobj * nat := (repeat (mkSObj false TNull 0) n, stages).
+Definition store0 (n stages : nat) : list sobj * nat := (repeat (mkSObj false TNull 0 0) n, stages).
